@@ -67,7 +67,7 @@ def main():
             na.append({"property_id": pid, "reason": PENDING.get(pid, "monitor not built yet (work in progress, see DESIGN.md section 5)")})
     m = {
         "version": 1,
-        "setup_cmd": "./check build chk rel asan",
+        "setup_cmd": "./check build chk rel asan tsan",
         "hooks": {
             "guard": "cargo feature verif-hooks (nucleo/verif-hooks enables nucleo-matcher/verif-hooks), off by default",
             "enable": "harness/Cargo.toml depends on /repo and /repo/matcher by path with features = [\"verif-hooks\"]; every check rebuilds with cargo from /repo's working tree",
@@ -88,5 +88,45 @@ ENGINES = [
  {"name": "sort_mon", "path": "harness/src/bin/sort_mon.rs", "serves_properties": ["C18"], "kind_free_text": "parallel sort monitor (native chk/release, ASan, Miri) with phase hooks"},
  {"name": "matcher_mon", "path": "harness/src/bin/matcher_mon.rs", "serves_properties": ["C01", "C02", "C03", "C04", "C05", "C10", "C14", "C15", "C16", "C17"], "kind_free_text": "native differential/metamorphic monitors over generated inputs (debug-assertion+overflow-check and release builds)"},
 ]
+
+LEVEL.update({
+ "C06": ("snapshot consistency checker after every tick of scripted/random/directed histories against a real Nucleo (held writers, cancellations, restarts), plus ASan and Miri on small histories", "sec 5 C06"),
+ "C07": ("quiescence oracle: snapshot vs from-scratch result after random and directed edit/tick/restart histories", "sec 5 C07"),
+ "C08": ("recorded histories checked against a sequential append-only model with unique ids: controlled schedules at atomic-operation granularity (coroutine scheduler over verif yield points) + free-running stress + ASan + Miri", "sec 5 C08"),
+ "C09": ("race detectors (Miri with many seeds, ThreadSanitizer) on hook-free vector-level and Nucleo-level workloads", "sec 5 C09"),
+ "C11": ("exactly-once drop counters with canaries and early-drop detection on vector-level and Nucleo-level histories; LeakSanitizer/ASan and Miri leak checker", "sec 5 C11"),
+ "C12": ("stream-tagged payloads: every snapshot after restart must be exactly the retained one or consist solely of new-stream items; directed restart schedules", "sec 5 C12"),
+ "C13": ("bounded-progress monitor over an event log: all 9 orderings of the tick/worker hand-over forced with pause hooks, event-loop client with delays, injector visibility clause", "sec 5 C13"),
+ "C19": ("wrapper oracle around every tick (changed=false => identical snapshot; running=false => completed pushes accounted, current pattern)", "sec 5 C19"),
+ "C20": ("exact model comparison of active_injectors() after every step of random handle/restart/tick histories", "sec 5 C20"),
+})
+NOTE.update({
+ "C06": "trusted: the monitor's own Matcher with the same fixed Config recomputes scores; what is published 'now' bounds what was published at snapshot time",
+ "C07": "trusted: from-scratch oracle = MultiPattern::score on a fresh Matcher over all items read back by index; bounded wait for quiescence (200 x 50 ms) - never reaching it is inconclusive",
+ "C08": "trusted: yield points before every atomic operation of the vector; event stamps from one global atomic clock taken at the client boundary",
+ "C09": "trusted: Miri's data-race detector / weak-memory emulation and TSan; only executions produced by the seeds are covered",
+ "C11": "trusted: drop counters in the payload's own Drop; LSan/Miri for allocations; early-drop rule only uses injector handles for old streams",
+ "C12": "trusted: payload stream tags written by the harness at injection time",
+ "C13": "trusted: hooks at the hand-over points; verdict only once no background run is pending (final, not a timeout)",
+ "C19": "trusted: completion counted when push/extend returned on its thread",
+ "C20": "trusted: the harness' own handle bookkeeping",
+})
+TECH.update({
+ "C06": "runtime monitoring: invariant checker on every snapshot + directed pause hooks + ASan/Miri",
+ "C07": "runtime monitoring: quiescence differential oracle over histories",
+ "C08": "runtime monitoring: history recording + sequential-model checker under a controlled scheduler; ASan; Miri",
+ "C09": "sanitizers: Miri data-race detection (many seeds) + ThreadSanitizer",
+ "C11": "runtime monitoring: exactly-once drop monitor + LeakSanitizer/ASan + Miri leak check",
+ "C12": "runtime monitoring: stream-tag invariant on every snapshot + directed schedules",
+ "C13": "runtime monitoring: event-log checker over forced hand-over orderings",
+ "C19": "runtime monitoring: pre/post-state oracle around every tick",
+ "C20": "runtime monitoring: reference-model comparison after every step",
+})
+ENGINE.update({"C06": "worker_mon", "C07": "worker_mon", "C08": "boxcar_mon", "C09": "boxcar_mon+worker_mon", "C11": "boxcar_mon+worker_mon", "C12": "worker_mon", "C13": "worker_mon", "C19": "worker_mon", "C20": "worker_mon"})
+ENGINES.extend([
+ {"name": "boxcar_mon", "path": "harness/src/bin/boxcar_mon.rs", "serves_properties": ["C08", "C09", "C11"], "kind_free_text": "vector-level monitors on the cfg-gated BoxcarVec facade: controlled scheduler (coroutines over verif yield points), stress, drop accounting, hook-free race shapes (native, ASan, TSan, Miri)"},
+ {"name": "worker_mon", "path": "harness/src/bin/worker_mon.rs", "serves_properties": ["C06", "C07", "C09", "C11", "C12", "C13", "C19", "C20"], "kind_free_text": "Nucleo-level monitors: random and directed (pause-hook) histories, event-log checker, exact injector model (native, ASan, TSan, Miri)"},
+])
+
 if __name__ == '__main__':
     main()
